@@ -50,7 +50,7 @@ type c16Rec struct {
 }
 
 func runC16(c *Ctx) {
-	sessions := c.Pick(12, 300)
+	sessions := c.Pick(60, 500)
 	if c.Arg("heavy", "") == "1" {
 		sessions = 1300
 	}
@@ -149,6 +149,22 @@ func runC16(c *Ctx) {
 			return
 		}
 		builtinProbes := []string{"PING", ":srv 433 x", ":srv CAP x", ":srv 410 x", ":srv 908 x"}
+		// user handlers on the verbs whose built-in handler is made to panic: they are siblings of the victim
+		var builtinUserFg, builtinUserBg int64
+		for _, v := range []string{"PING", "433", "CAP", "410", "908"} {
+			s.Conn.HandleFunc(v, func(_ *client.Conn, l *client.Line) {
+				if n := len(l.Args); n > 0 && strings.HasPrefix(l.Args[n-1], "sync-") {
+					return
+				}
+				atomic.AddInt64(&builtinUserFg, 1)
+			})
+			s.Conn.HandleBG(v, client.HandlerFunc(func(_ *client.Conn, l *client.Line) {
+				if n := len(l.Args); n > 0 && strings.HasPrefix(l.Args[n-1], "sync-") {
+					return
+				}
+				atomic.AddInt64(&builtinUserBg, 1)
+			}))
+		}
 		thrown := map[string]int{}
 		var thrownSeq []throwPlan
 		sentEvents := 0
@@ -170,6 +186,10 @@ func runC16(c *Ctx) {
 				return false
 			}
 			// foreground counts are exact at a marker
+			if n := atomic.LoadInt64(&builtinUserFg); n != int64(builtinThrown) {
+				fail("builtin-sibling-fg-count", fmt.Sprintf("user foreground handlers on the verbs of %d lines whose built-in handler panicked ran %d times", builtinThrown, n))
+				return false
+			}
 			for h := 0; h < nFg; h++ {
 				if n := atomic.LoadInt64(&counts[h]); n != int64(sentEvents) {
 					fail("fg-count", fmt.Sprintf("well-behaved foreground handler %d ran %d times after %d events (%d panics thrown so far)", h, n, sentEvents, len(thrownSeq)+builtinThrown))
@@ -187,6 +207,10 @@ func runC16(c *Ctx) {
 						fail("bg-count", fmt.Sprintf("well-behaved background handler %d ran %d times after %d events", h, n, sentEvents))
 						return false
 					}
+				}
+				if !waitUntil(func() bool { return atomic.LoadInt64(&builtinUserBg) >= int64(builtinThrown) }) || atomic.LoadInt64(&builtinUserBg) != int64(builtinThrown) {
+					fail("builtin-sibling-bg-count", fmt.Sprintf("user background handlers on the verbs of %d lines whose built-in handler panicked ran %d times", builtinThrown, atomic.LoadInt64(&builtinUserBg)))
+					return false
 				}
 				want := len(thrownSeq) + builtinThrown
 				if custom {
